@@ -238,6 +238,15 @@ def _listeners_corrupt(evs, profile):
     return None
 
 
+def _executor_corrupt(evs, profile):
+    out = [dict(e) for e in evs]
+    for e in out:
+        if e.get('e') == 'poll' and e.get('res') == 'ok':
+            e['val'] = e['val'] + 1
+            return out
+    return None
+
+
 COMPONENTS = {
     'bulkhead': {
         'spec_files': ['Bulkhead.tla', 'MC_Bulkhead.tla', 'Trace_Bulkhead.tla'],
@@ -397,6 +406,15 @@ COMPONENTS = {
         'random': {'quick': [{'runs': 0}], 'thorough': [{'runs': 0}]},
         'corrupt': _listeners_corrupt,
     },
+    'executor': {
+        'spec_files': ['Executor.tla', 'MC_Executor.tla', 'Trace_Executor.tla'],
+        'mc': {'quick': [{'cfg': 'MC_Executor.cfg', 'module': 'MC_Executor'}], 'thorough': [{'cfg': 'MC_Executor.cfg', 'module': 'MC_Executor'}]},
+        'gen': {'cfg': 'Gen_Executor.cfg', 'module': 'MC_Executor', 'num': {'quick': 200, 'thorough': 2000}, 'depth': 30},
+        'trace_module': 'Trace_Executor', 'trace_cfg_tmpl': 'Trace_Executor.cfg.tmpl',
+        'harness': 'executor',
+        'random': {'quick': [{'runs': 600}], 'thorough': [{'runs': 8000}]},
+        'corrupt': _executor_corrupt,
+    },
 }
 
 PROPS = {
@@ -421,7 +439,7 @@ PROPS = {
     'C18': {'comp': 'health', 'profile': 'full'},
     'C19': {'comp': 'chaos', 'profile': 'full'},
     'C17': {'comp': 'fallback', 'profile': 'full'},
-    'C20': {'parts': [{'comp': 'stacks', 'profile': 'transparent+readiness'}, {'comp': 'listeners', 'profile': 'listeners'}]},
+    'C20': {'parts': [{'comp': 'stacks', 'profile': 'transparent+readiness'}, {'comp': 'listeners', 'profile': 'listeners'}, {'comp': 'executor', 'profile': 'executor'}]},
     'C02': {'comp': 'ratelimiter', 'profile': 'ProfC02', 'drift_profile': 'ProfAll'},
     'C15': {'comp': 'ratelimiter', 'profile': 'ProfC15', 'drift_profile': 'ProfAll'},
 }
